@@ -210,6 +210,16 @@ Example c15_huge_exponent_rejected :
 Proof. exact huge_exponent_rejected. Qed.
 Print Assumptions c15_huge_exponent_rejected.
 
+(* ... and the contact side: a stored number that the reader accepts has an exponent within +-max(1000, length of its
+   stored text) (model stored_number_ok, compared with the real flows.ReadContact in every run), so the two numbers
+   a validated number condition makes Decimal.Cmp rescale are at most 1000 + max(1000, len) decimal places apart *)
+Theorem c15_rescale_distance_bounded : forall e r pt key o v len ex,
+  validate_cond e r pt key o v = None -> resolve_value_type r pt key = Some FNumber ->
+  ((is_eq o || is_ne o) && is_nil v = false) -> stored_number_ok len ex = true ->
+  (Z.abs (ex - d_e (value_as_number v)) <= 1000 + Z.max 1000 (Z.of_N len))%Z.
+Proof. exact rescale_distance_bounded. Qed.
+Print Assumptions c15_rescale_distance_bounded.
+
 (* -- dates -------------------------------------------------------------------------------------------- *)
 
 Theorem c15_date_relations : forall e r c pt key v,
@@ -235,15 +245,17 @@ Proof. exact date_trichotomy_on_contact. Qed.
 Print Assumptions c15_trichotomy_date.
 
 (* Dates are compared by calendar day in the environment's zone.  The zone enters as an arbitrary
-   [calendar] (local midnights and the local day of an instant) with the single requirement [calendar_ok]
-   (midnights increase; an instant is on day d iff it lies between the midnights of d and d+1).
-   FULL STATEMENT (false of the code, see c15_date_by_calendar_day_refuted): the three conclusions below
-   without the last hypothesis.
-   PARTIAL: they hold when the queried day is 24 hours long.  What is missing: days on which the zone's
-   offset changes — the code takes [local midnight, local midnight + 24h) (gocommon dates.DayToUTCRange) for
-   the day.  Listed in KNOWN_FINDINGS.txt as class date-comparison:dst-transition-day. *)
+   [calendar] (local midnights and the local day of an instant).
+   FULL STATEMENT (false of the code, see c15_date_by_calendar_day_refuted): the three conclusions below for every
+   calendar and every queried day.
+   PARTIAL: they hold when the QUERIED day d satisfies [day_ok cal d] (the instants before d's local midnight are
+   exactly those of earlier local days, and the instants of local day d are exactly the interval between d's midnight
+   and the next) and is 24 hours long.  Both hypotheses are about day d only: what is excluded is exactly a queried day
+   on which the zone skips or repeats local time (23/25-hour days, a day that is not an interval) — the listed finding
+   date-comparison:dst-transition-day (the code takes [local midnight, local midnight + 24h), gocommon
+   dates.DayToUTCRange).  A transition on any OTHER day of the zone does not matter (c15_day_ok_other_days). *)
 Theorem c15_date_by_calendar_day_partial : forall (cal : calendar) e r c pt key v d t,
-  calendar_ok cal ->
+  day_ok cal d ->
   resolve_value_type r pt key = Some FDatetime -> v <> [] ->
   query_property c pt key = [VTime t] ->
   e_day_start e v = Some (midnight cal d) ->
@@ -251,8 +263,22 @@ Theorem c15_date_by_calendar_day_partial : forall (cal : calendar) e r c pt key 
   eval_contact e r (Cond pt key OpLt v) c = RBool (local_day cal t <? d)%Z
   /\ eval_contact e r (Cond pt key OpEq v) c = RBool (local_day cal t =? d)%Z
   /\ eval_contact e r (Cond pt key OpGt v) c = RBool (d <? local_day cal t)%Z.
-Proof. exact date_by_calendar_day_on_contact. Qed.
+Proof. exact date_by_calendar_day_local_on_contact. Qed.
 Print Assumptions c15_date_by_calendar_day_partial.
+
+(* the former, zone-wide hypothesis (every local day an interval, midnights increasing) implies the local one *)
+Theorem c15_day_ok_from_calendar_ok : forall cal d, calendar_ok cal -> day_ok cal d.
+Proof. exact calendar_ok_day_ok. Qed.
+Print Assumptions c15_day_ok_from_calendar_ok.
+
+(* a zone with a transition on ANOTHER day — clocks set back across midnight one minute into local day 1, as
+   America/St_Johns did in 2007, so that local day 0 is not an interval and the zone-wide hypothesis fails —
+   satisfies the local hypotheses on every day from the third on *)
+Example c15_day_ok_other_days :
+  ~ calendar_ok cal_back
+  /\ forall d, (3 <= d)%Z -> day_ok cal_back d /\ (midnight cal_back (d + 1) = midnight cal_back d + day_ns)%Z.
+Proof. split; [exact cal_back_not_calendar_ok|exact cal_back_day_ok]. Qed.
+Print Assumptions c15_day_ok_other_days.
 
 (* the hypotheses are satisfiable, e.g. by the uniform calendar, whose every day is 24 hours long *)
 Example c15_calendar_example :
